@@ -141,7 +141,12 @@ extern "C" void h_entry()
                 M mo{};
                 for (usize j = 0; j < LT::N; ++j)
                 {
-                    mo.fixed[j] = m.fixed[j];
+                    if (LT::kind[j] == K_FIXED)
+                    {
+                        usize f = verif_nondet_size();  // the partner's fixed sizes are independent of the empty vector's
+                        verif_assume(f <= SMAX);
+                        mo.fixed[j] = verif_fork(f);
+                    }
                 }
                 mo.cap = 1;
                 mo.budget = SMAX * 8 * LT::NVARY;
